@@ -581,7 +581,7 @@ func (world) Run(input any) kit.Case {
 	sig.Write(js)
 	c.Sig = sig.String()
 	final := s.Project()
-	c.Observed = map[string]any{"final": final, "rpcs": len(s.RPCs), "conflicts": s.Conflicts, "already_exists": s.Exists, "panics": s.Panics}
+	c.Observed = map[string]any{"final": final, "rpcs": len(s.RPCs), "conflicts": s.Conflicts, "fresh_reads_after_conflict": s.FreshReads, "already_exists": s.Exists, "panics": s.Panics}
 	if len(s.Panics) > 0 {
 		c.GoViol = strings.Join(s.Panics, "; ")
 	}
